@@ -45,6 +45,11 @@ class _Continue(Exception):
     pass
 
 
+class DivByZero(Unsupported):
+    """x / 0 with an identically zero divisor (inf, NaN or ZeroDivisionError when compiled);
+    callers that do not single it out treat it as any construct outside the lifted subset"""
+
+
 class Raised(Exception):
     """the analysed code raises on this region"""
 
@@ -487,7 +492,7 @@ class RegionLifter:
                 return x * y
             if op is ast.Div:
                 if y.is_zero():
-                    raise Unsupported("division by a term that is zero on this region")
+                    raise DivByZero("division by a term that is identically zero on this region")
                 return x / y
             if op is ast.Pow:
                 return self.power(x, y)
@@ -728,7 +733,7 @@ class RegionLifter:
         kw = {k.arg: self.ev(k.value, env, F) for k in node.keywords if k.arg}
         if isinstance(f, ast.Attribute) and not (isinstance(f.value, ast.Name)
                                                  and f.value.id in ("np", "numpy", "math", "linalg")) \
-                and not name.startswith("np.linalg."):
+                and not name.startswith(("np.linalg.", "np.random.")):
             recv = self.ev(f.value, env, F)
             args = [self.ev(a, env, F) for a in node.args]
             if isinstance(recv, Obj):
@@ -756,6 +761,16 @@ class RegionLifter:
             raise Unsupported(f"method .{f.attr}")
         args = [self.ev(a, env, F) for a in node.args]
         short = name.split(".")[-1]
+        if name in ("np.random.randn", "np.random.standard_normal", "np.random.rand", "np.random.normal") \
+                and len(args) == 1:
+            # a draw from a continuous distribution: fresh symbols, generic witness values
+            k = self.as_int(args[0])
+            out = Vec()
+            for i in range(k):
+                nm = f"rnd{len([v for v in self.rg.values if v.startswith('rnd')])}"
+                self.rg.values[nm] = 0.37 + 0.29 * i * (-1) ** i
+                out.append(sym(nm))
+            return out
         if name in ("np.abs", "abs", "np.absolute", "np.fabs"):
             return self.ew(self.absval, args[0])
         if name == "np.sign":
